@@ -511,6 +511,15 @@ PROPS["C07"] = {
            "parse_rtcp_rtpfb", "parse_rtcp_psfb", "parse_psfb_common", "parse_fir_body", "parse_nack_body", "parse_remb_body", "parse_twcc_body"],
           "verbatim text of the 13 functions (types and constants copied from the source too): for every byte string (no length bound) every index and slice range is in bounds, no usize/u8 arithmetic or shift overflows, every loop carries a decreases measure (terminates), every call meets its callee's precondition — so the walker returns Ok or Err, never panics, never spins. Precondition: a slice spans at most isize::MAX bytes (Rust's own guarantee)",
           min_verified=38),
+        V("STUN decoder: total for input of ANY length (Verus)", "stun_total", "quick", "proof", ["decode_stun_message"],
+          "verbatim decode_stun_message (StunDecoded/StunMethod/StunClass copied from the source): for every byte string every index and slice range is in bounds, copy_from_slice lengths agree, no arithmetic overflows, the attribute loop terminates. parse_xor_address is called through 'returns for every argument' (its own totality is a Kani obligation); bail!(m) is read as return Err(<opaque>(m))",
+          min_verified=2),
+        V("DTLS record + handshake decoders: total for input of ANY length (Verus)", "dtls_decode_total", "quick", "proof",
+          ["DtlsRecord::decode", "HandshakeMessage::decode", "ClientHello::decode", "ServerHello::decode", "HelloVerifyRequest::decode",
+           "ServerKeyExchange::decode", "CertificateMessage::decode", "ClientKeyExchange::decode", "Finished::decode",
+           "ContentType::try_from", "HandshakeType::try_from"],
+          "verbatim text of the nine decoders and two TryFrom impls (message structs copied from the source) against an assumed contract of bytes::Bytes that carries the crate's documented panic conditions as preconditions: for every buffer content and length every get_uN / copy_to_slice / split_to / advance / index is within the remaining data, no arithmetic overflows, the cipher-suite and certificate loops terminate",
+          min_verified=15),
     ],
 }
 
